@@ -409,7 +409,13 @@ def _run(plan, ctx, oracle, seqmod, sfp, spmod, SequenceParameters, fsbox):
         raw = obj.get_phosphosites()
         if any(id(x) in scribbled for x in flat(raw)):
             raise Discard("a container the caller had edited was handed out again (whether results are private copies is not said)")
-        return [int(x) for x in raw]
+        out = []
+        for x in raw:
+            try:
+                out.append(int(x))
+            except Exception:
+                out.append(x)
+        return out
     kinds_seen = [set() for _ in objs]
     last_obj = [None]
     prev_q = [None]
@@ -470,6 +476,12 @@ def _run(plan, ctx, oracle, seqmod, sfp, spmod, SequenceParameters, fsbox):
         if "shuffle" in op:
             fz = set(j for j in op["shuffle"].get("fz", []) if j < len(seqs[i]))
             child = o.get_shuffled_sequence(fz)
+            for other in objs:
+                sa, sb = getattr(child, "SeqObj", None), getattr(other, "SeqObj", None)
+                if child is other or (sa is not None and sa is sb):
+                    # two API objects over one backend: what a setter does to one shows on the other.  That is a
+                    # matter for C16/C20 (which report it); a history of read-only queries cannot be judged on it
+                    raise Discard("a shuffle returned the object it was called on: the copy and the original are one object")
             cs = child.get_sequence()
             add(child, cs, "child")
             kinds_seen.append(set())
